@@ -207,9 +207,12 @@ Print Assumptions C04_today_linearizable.
 (* "Exactly one of several concurrent Mkdir calls for the same name succeeds": ANY number of
    threads, each calling Mkdir of one free (normalised) name with any permissions, under ANY
    interleaving of their sections, whatever the configuration: when all have returned, exactly
-   one call reported success and every other one reported "exists". *)
+   one call reported success and every other one reported "exists".
+   The name must be creatable at all: below_file = false, i.e. walking up with filepath.Dir the
+   first existing ancestor is not a regular file (Model/MemFs.v below_file = memmap.go
+   lockfreeBelowFile; there Mkdir answers ENOTDIR to every caller — C01_below_file_refused). *)
 Theorem C04_mkdir_exactly_one : forall k name (s0 : lstate) perms sched,
-  normalize_path name = name -> lookup (fst s0) name = None -> perms <> [] ->
+  normalize_path name = name -> lookup (fst s0) name = None -> below_file (fst s0) name = false -> perms <> [] ->
   lin_quiescent (ln_run k s0 (mk_progs name perms) sched) = true ->
   cnt mk_won (lg_lin (ln_run k s0 (mk_progs name perms) sched)) = 1%nat /\
   Forall (fun x => lc_res x = ROk \/ lc_res x = RErr (EW KExist)) (lg_lin (ln_run k s0 (mk_progs name perms) sched)).
